@@ -8,6 +8,8 @@ ENGINES = [
     {"name": "F", "path": "wrapsa/prog.py", "serves_properties": ["C01", "C02", "C08", "C13", "C14",
                                                                    "C15", "C16", "C17"],
      "kind_free_text": "program index, call binding, guards, def-use, freshness, effects"},
+    {"name": "E", "path": "wrapsa/emit.py", "serves_properties": ["C03", "C04", "C09"],
+     "kind_free_text": "constant folding of str.format / f-string / concatenation / textwrap templates into literal parts and slots with bound expressions"},
     {"name": "X", "path": "wrapsa/clangx.py", "serves_properties": ["C18", "C11"],
      "kind_free_text": "clang -fsyntax-only JSON AST of matlab.h against stub headers"},
 ]
@@ -28,6 +30,20 @@ CHECKS = {
                     "matches whole identifiers only, forwards qualifiers/names/defaults, and treats `This` by "
                     "equality. Does not decide value-level equality of the resulting spellings for all inputs.",
             "note": TB + "; type-carrying fields taken from the parser classes' own annotations"},
+    "C03": {"engine": "E+F+G", "design_ref": "DESIGN.md section 3 C03",
+            "technique": "static analysis: node-kind / member-kind exhaustiveness between grammar, instantiator and emitter dispatch; dominance of filter/ignore/escape steps over the emissions they protect; folded-template slot provenance",
+            "text": "Decides that every node and member kind the instantiated tree can contain has an emitter, that "
+                    "the top-namespace filter, the ignore test, the once-per-submodule declaration and the keyword "
+                    "escape dominate the emissions they protect, and that namespace depth is computed relative to "
+                    "the configured top namespace. Does not decide exactly-once per declaration for every input.",
+            "note": TB + "; keyword.kwlist of CPython 3.12 is the reference list"},
+    "C04": {"engine": "E", "design_ref": "DESIGN.md section 3 C04",
+            "technique": "static analysis: constant-folded emission templates with slot provenance; abstract evaluation of the method/static partition; sibling projections of one argument list",
+            "text": "Decides the shape of every generated lambda/registration for all inputs (one argument list in "
+                    "declared order for parameters, call and py::arg; default on its own parameter; def/def_static, "
+                    "receiver and self parameter agree per member kind; return iff non-void; readonly iff const; "
+                    "same-entity slots; operator shapes). Behaviour of the compiled binding is not decided.",
+            "note": TB + "; pybind11 trusted"},
     "C07": {"engine": "G+F", "design_ref": "DESIGN.md section 3 C07",
             "technique": "static analysis: end-anchor and capture-completeness of the grammar, call-graph effect analysis (may-reject before first write on all paths), handler audit",
             "text": "Decides: the parse root is end-anchored and is the only parse entry; every accepted token "
@@ -44,6 +60,13 @@ CHECKS = {
                     "the typedef's arguments and name, that everything else passes through once in order, and "
                     "that names/spellings come from one helper that capitalises position 0 only.",
             "note": TB + "; itertools.product ordering as documented"},
+    "C09": {"engine": "E", "design_ref": "DESIGN.md section 3 C09",
+            "technique": "static analysis: slot completeness and delimiter balance of every folded template (by induction over slot values), string-kind adjacency, re-use of C04/B1 and C02/S1-S2",
+            "text": "Decides well-formedness conditions of the emitted C++ that are visible in the templates: no "
+                    "missing/unused placeholder, balanced delimiters in every literal skeleton, no namespace prefix "
+                    "in front of expression text, lambda/keyword arity, no unsubstituted parameter. 'Compiles against "
+                    "any conforming library' needs a compiler and the library and is not decided.",
+            "note": TB},
     "C12": {"engine": "G", "design_ref": "DESIGN.md section 3 C12",
             "technique": "static analysis: grammar reconstruction + layout classification of terminals/combinators",
             "text": "Decides the necessary structural conditions for layout/comment independence of parsing: "
@@ -86,5 +109,5 @@ CHECKS = {
 }
 PENDING = "checker not implemented yet in this revision (see DESIGN.md section 3 for the planned static rules)"
 NOT_APPLICABLE = {p: PENDING for p in
-                  ["C03", "C04", "C05", "C06", "C09", "C10", "C11",
+                  ["C05", "C06", "C10", "C11",
                    "C15", "C16", "C17"]}
